@@ -89,6 +89,7 @@ def run(ck, progs):
         ck.guard("C02-e MUSTPASS header lookup", lambda: c02e(ck, prog))
         ck.guard("C02-f API-MISUSE numeric header", lambda: c02f(ck, prog))
         ck.guard("C02-g PAIR query value extent", lambda: c02g(ck, prog))
+        ck.guard("C02-h PAIR payload extent", lambda: c02h(ck, prog))
     ck.config = None
 
 
@@ -332,3 +333,19 @@ def c02g(ck, prog):
                       % (d[:90], "one item of a split at every `=`" if unbounded_split else "a slice with an upper bound"),
                       how="value = the pair from after its first `=` to its end: %s" % d[:70])
     ck.floor(R, "(name, value) pairs built by QueryParams::iter", n, 1)
+
+
+def c02h(ck, prog):
+    """`the payload delivered is exactly the Content-Length bytes that follow the head`: the clauses of C06-b (every payload
+    read_payload returns has the announced extent, whichever buffer case applies), re-evaluated here because a payload that
+    swallows the bytes behind it is a parsing fault of this request, not only a segmentation effect."""
+    R = "C02-h PAIR payload extent"
+    from . import C06
+    sub = type(ck)(ck.prop, ck.tier)
+    sub.config = ck.config
+    C06.c06b(sub, prog)
+    n = 0
+    for o in sub.obs:
+        n += 1
+        ck.ob(R, o["key"], o["ok"], o["where"], o["detail"], how=o["how"], nontrivial=o.get("nontrivial", True))
+    ck.floor(R, "payload-extent clauses", n, 2)
